@@ -246,7 +246,43 @@ func TestVerifC14Text(t *testing.T) {
 			var tramp interface{}
 			var trampAddr uintptr
 			trampSize := 0
-			if tn := kv["tramp"]; tn != "" {
+			var mphRegion uintptr
+			var mphSnap []byte
+			mphN := 0
+			if v := kv["mph"]; v != "" {
+				// a placeholder of exactly N bytes of code with NO padding behind it, directly followed by a neighbour
+				// function, in a private executable mapping (a Go function whose code exactly fills its alignment slot
+				// looks like this); handed to goom as a func value whose code pointer is that address
+				mphN = int(vh.U64(v))
+				r, _, e := syscall.Syscall6(syscall.SYS_MMAP, 0, 3*4096, syscall.PROT_READ|syscall.PROT_WRITE, syscall.MAP_PRIVATE|syscall.MAP_ANON, ^uintptr(0), 0)
+				if e != 0 {
+					panic("c14 probe: mmap: " + e.Error())
+				}
+				reg := c14raw(r, 3*4096)
+				for k := range reg {
+					reg[k] = 0xcc
+				}
+				o := 4096
+				for k := 0; k < mphN-1; k++ {
+					reg[o+k] = 0x50 // PUSH AX
+				}
+				reg[o+mphN-1] = 0xc3
+				nb := o + mphN
+				if kv["pad"] == "1" { // ... or with 16 bytes of INT3 padding that belong to the placeholder's slot
+					nb += 16
+				}
+				for k := 0; k < 63; k++ {
+					reg[nb+k] = 0x58 // the neighbour: POP AX ...
+				}
+				reg[nb+63] = 0xc3
+				reg[nb+64+16] = 0xc3 // ends goom's scan of the INT3 padding
+				syscall.Syscall(syscall.SYS_MPROTECT, r, 3*4096, syscall.PROT_READ|syscall.PROT_EXEC)
+				mphRegion, mphSnap = r, append([]byte(nil), reg...)
+				code := &struct{ pc uintptr }{r + 4096}
+				tramp = *(*func(int, int) int)(unsafe.Pointer(&code))
+				trampAddr = r + 4096
+				trampSize, _ = bytecode.GetFuncSize(64, trampAddr, false)
+			} else if tn := kv["tramp"]; tn != "" {
 				tramp = zzC14Funcs[strings.TrimPrefix(tn, c14pkg)]
 				trampAddr = reflect.ValueOf(tramp).Pointer()
 				trampSize, _ = bytecode.GetFuncSize(64, trampAddr, false)
@@ -279,6 +315,18 @@ func TestVerifC14Text(t *testing.T) {
 				lock()
 				delete(patches, entry)
 				unlock()
+				if mphRegion != 0 {
+					changed := 0
+					reg := c14raw(mphRegion, 3*4096)
+					for k := range reg {
+						if reg[k] != mphSnap[k] {
+							changed++
+						}
+					}
+					n += changed // a refused install must not have written to the placeholder either
+					bytecode.ZZVerifC14ClearFuncSize(trampAddr)
+					syscall.Syscall(syscall.SYS_MUNMAP, mphRegion, 3*4096, 0)
+				}
 				out.Put(op.Idx, "refused:%s | panic=%s textdiff=%d image_same=%v pbase=%#x", c14errClass(err), pc, n, image() == image0, pbase)
 				continue
 			}
@@ -358,6 +406,19 @@ func TestVerifC14Text(t *testing.T) {
 				trampDist = sy.dist
 			}
 			strayDist := 0
+			if mphRegion != 0 {
+				trampDist = mphN
+				if kv["pad"] == "1" {
+					trampDist += 16
+				}
+				reg := c14raw(mphRegion, 3*4096)
+				for k := range reg {
+					a := mphRegion + uintptr(k)
+					if reg[k] != mphSnap[k] && !(a >= trampAddr && a < trampAddr+uintptr(trampDist)) {
+						strayDist++
+					}
+				}
+			}
 			stray := 0
 			if nApply > 0 {
 				cur := c14raw(textLo, int(textHi-textLo))
@@ -399,7 +460,10 @@ func TestVerifC14Text(t *testing.T) {
 			lock()
 			delete(patches, entry)
 			unlock()
-			if tramp != nil { // put the placeholder back for the next op (probe housekeeping, outside the markers)
+			if mphRegion != 0 {
+				bytecode.ZZVerifC14ClearFuncSize(trampAddr)
+				syscall.Syscall(syscall.SYS_MUNMAP, mphRegion, 3*4096, 0)
+			} else if tramp != nil { // put the placeholder back for the next op (probe housekeeping, outside the markers)
 				p := trampAddr &^ 4095
 				ln := (trampAddr+uintptr(trampSize)+4095)&^4095 - p
 				syscall.Syscall(syscall.SYS_MPROTECT, p, ln, syscall.PROT_READ|syscall.PROT_WRITE|syscall.PROT_EXEC)
